@@ -512,7 +512,7 @@ def correspondence(ctx, name, impl_cmd, model_cmd, cases, nontrivial=None, keep_
     return impl, model, diffs
 
 
-def run_known_witnesses(ctx, streams, model_cmd, oracle=None):
+def run_known_witnesses(ctx, streams, model_cmd, oracle=None, canon=None):
     """Known findings are identified by exact witness histories (known_findings.json).  Each witness is replayed on the
     streams it names; if the real code still differs from the model (or fails the oracle) on it, a KNOWN-FINDING line is
     printed.  Witness histories are never generated by the random streams, so nothing else is attributed to a finding."""
@@ -522,6 +522,7 @@ def run_known_witnesses(ctx, streams, model_cmd, oracle=None):
             for name, cmd in streams.items():
                 if w.get('stream') and w['stream'] not in name: continue
                 a = run_one(ctx, cmd, w['ops'], 'kf_i'); b = run_one(ctx, model_cmd, w['ops'], 'kf_m')
+                if canon: a, b = canon(a), canon(b)
                 bad = (a != b) or (oracle is not None and bool(oracle(w['ops'], a)))
                 n += 1
                 if bad: ctx.known_finding(k['id'], k['what'] + ' [witness on stream %s: %s]' % (name, '; '.join(w['ops'])))
